@@ -58,9 +58,14 @@ fn eval_pure(synced: &BTreeSet<u64>, head: u64, limit: u64, key: u64, rep: &mut 
         }
         s
     });
-    let must_be_nonempty = limit >= 1 && (behind || top_start.is_some_and(|s| s > 1));
-    let class = if empty {
-        "empty"
+    // The statement constrains the batches that ARE requested; it has no liveness clause
+    // (convergence is C38's).  An empty result is therefore never a violation; whether missing
+    // insertable heights existed is only recorded as an outcome class.
+    let missing_exist = limit >= 1 && (behind || top_start.is_some_and(|s| s > 1));
+    let class = if empty && missing_exist {
+        "empty:although-missing-heights-exist"
+    } else if empty {
+        "empty:nothing-missing"
     } else if behind {
         "above-highest-synced"
     } else if head < m {
@@ -74,9 +79,6 @@ fn eval_pure(synced: &BTreeSet<u64>, head: u64, limit: u64, key: u64, rep: &mut 
     }
     let mut bad = |k: &str, what: String| rep.violation(k, format!("{what}; result {a}..={b}"), case.clone());
     if empty {
-        if must_be_nonempty {
-            bad("pure-no-batch-although-missing-heights-exist", "missing insertable heights exist and limit >= 1, but the result is empty".into());
-        }
         return;
     }
     if a == 0 {
@@ -195,11 +197,11 @@ fn main() {
             rule: "E1: all 2^N synced sets over heights off+1..=off+N (N=10 quick, 12 thorough; off in {0, u64::MAX-N}) x head in {0} ∪ off..=off+N+1 x limit in {0,1,2,3,5,N,N+1,u64::MAX}, distinct = (set, off, head, limit), non-trivial = non-empty synced set and non-empty result; E3: envdfs on the real Syncer+InMemoryStore+mocked P2p with <= 3 (quick) / <= 4 (thorough) non-default environment choices on config old6-batch4 and one less on old6-batch4-prefilled-9-12 and all-in-window-batch7, menu = union of the C25 and C38 menus (answers honest/prefix/first-only/error/fork/splices/empty, head answers honest/stale/advanced/error, header-sub next/skip, prune any stored out-of-window height [as an event at quiescence and as a choice point right before each get_stored_header_ranges / get_pruned_ranges / get_by_height / insert call of the syncer], disconnect/reconnect, 61 s), every announced batch and every header-ex range request checked against the store at that moment",
             assumptions: &[
                 "the network head of the statement is read as max(subjective head, highest synced height): synced headers are verified network headers, so a subjective head below them (possible after a restart with a lagging trusted peer) does not make the gap below the highest synced range 'above the network head'",
-                "maximal batch size is not demanded (the statement says 'at most the batch size'), only non-emptiness whenever missing insertable heights exist and limit >= 1",
+                "only the batches that are requested are constrained: neither a maximal batch size nor a non-empty result is demanded (no liveness clause in the statement; convergence is C38's); an empty result while missing insertable heights exist is recorded as outcome class 'empty:although-missing-heights-exist', not as a violation; the non-empty classes are required, so a function that never returns a batch makes the run vacuous (exit 2)",
                 "worker part: same assumptions as C25/C38 (Time::now() not seamed, >= 2 h margins; mock behind the header-ex client; one environment event at a time)",
             ],
             required_classes: &[
-                "empty",
+                "empty:nothing-missing",
                 "above-highest-synced",
                 "below-highest-range",
                 "completed",
